@@ -33,6 +33,19 @@ Definition dsa_verify (key : dsa_key) (r s : Z) (data : list Z) (w : Z) : bool :
     r =? v
   else false.
 
+(* python_dsakey.py:150-166 (since /repo ab7872a): the signature bytes are decoded with python-ecdsa's
+   remove_sequence / remove_integer (external: the oracle `decode`, None = UnexpectedDER / IndexError /
+   ValueError or trailing bytes); an empty or malformed signature is rejected, never an exception *)
+Definition dsa_verify_bytes (decode : list Z -> option (Z * Z)) (key : dsa_key) (sig data : list Z)
+           (winv : Z -> Z) : bool :=
+  match sig with
+  | [] => false
+  | _ => match decode sig with
+         | None => false
+         | Some (r, s) => dsa_verify key r s data (winv s)
+         end
+  end.
+
 (* python_dsakey.py generate_qp / generate (since /repo b7d3c31): q = getRandomPrime(N);
    p = 2*k*q + 1 for random k until p has L bits and isPrime(p); g = index^((p-1)//q) mod p
    (retried while g = 1); x random; y = g^x mod p.  The random draws are inputs. *)
